@@ -237,7 +237,10 @@ func (r *testResults) processSidebandInfoLocked() {
 			}
 			r.outcomes[name] = outcome
 		} else {
-			r.setOutcomeLocked(name, false, errors.New(msg))
+			// The peer had feedback but no result ever arrived for this test
+			// case. So it did not really run: mark it as such, so it can't be
+			// mistaken for an expected failure of a known-failing/flaky case.
+			r.setOutcomeLocked(name, true, errors.New(msg))
 		}
 	}
 }
